@@ -98,6 +98,10 @@ class Builder:
             mret=r.get("mret", True),
             rows=r.get("rows", 1),
             cols=r.get("cols", 1),
+            frows=r.get("frows", 0),
+            fcols=r.get("fcols", 0),
+            packw=r.get("packw", 0),
+            fpackw=r.get("fpackw", 0),
         )
         return self._leaf(r, w, sid, g)
 
@@ -301,6 +305,11 @@ def depth_of(r) -> int:
 def kinds_of(r, out=None):
     out = set() if out is None else out
     out.add(r["k"] if r["k"] != "spy" else "spy-" + r["mode"])
+    if r["k"] == "spy":
+        if r.get("frows"):
+            out.add("focus-dependent-rows")
+        if r.get("fcols") or r.get("fpackw"):
+            out.add("focus-dependent-width")
     if r["k"] == "Edit":
         if r.get("mask"):
             out.add("Edit-masked-" + r.get("txt", "plain"))
@@ -328,9 +337,9 @@ def need(r):
     k = r["k"]
     if k == "spy":
         if r["mode"] == "flow":
-            return 1, r.get("rows", 1)
+            return max(1, r.get("packw", 0) + r.get("fpackw", 0)), r.get("rows", 1) + r.get("frows", 0)
         if r["mode"] == "fixed":
-            return r.get("cols", 1), r.get("rows", 1)
+            return r.get("cols", 1) + r.get("fcols", 0), r.get("rows", 1) + r.get("frows", 0)
         return 1, 1
     if k == "Edit":
         total = r.get("cap", 0) + r["len"] + 2
@@ -476,6 +485,19 @@ class Gen:
         elif mode == "fixed":
             r["rows"] = rng.choice([1, 1, 2, 3])
             r["cols"] = rng.choice([1, 2, 3, 4, 6])
+        # geometry that depends on the focus ARGUMENT (rows(size, focus) / pack(size, focus) may legitimately do so)
+        x = rng.random()
+        if mode == "flow" and x < 0.22:
+            r["frows"] = rng.choice([1, 1, 2, 3])
+            r["sel"] = True
+        elif mode == "flow" and x < 0.30:
+            r["packw"] = rng.randint(1, 5)
+            r["fpackw"] = rng.choice([1, 2, 3])
+            r["sel"] = True
+        elif mode == "fixed" and x < 0.30:
+            r["fcols"] = rng.choice([0, 1, 2])
+            r["frows"] = rng.choice([0, 1]) if r["fcols"] else 1
+            r["sel"] = True
         return r
 
     def leaf(self, mode):
